@@ -105,6 +105,10 @@ def main():
         for n in sorted(os.listdir(sd)):
             meta = os.path.join(sd, n, "meta.json")
             pf = os.path.join(sd, n, "patch.diff")
+            # a seed whose patch no longer applies because a later fix: commit touched the same lines is kept in a version
+            # re-based onto the repaired tree (same fault, same lines)
+            if os.path.exists(os.path.join(sd, n, "patch_rebased.diff")):
+                pf = os.path.join(sd, n, "patch_rebased.diff")
             if not os.path.exists(pf):
                 continue
             exp = []
